@@ -15,23 +15,26 @@ struct in_esp { struct v_cfg cfg; uint8_t bytes[ESP_N]; size_t length; uint8_t n
 void h_esp32_frame(void) {
     V_INPUT(h_esp32_frame, struct in_esp, in);
     V_ENV(in.cfg);
-    g_cfg.alloc_fail_mask = 0;
     V_ASSUME(in.length <= ESP_N);
     lltd_esp32_ctx_t ctx;
     V_ZERO(ctx);
     lltd_esp32_init(&ctx);
-    V_ASSUME(ctx.mapping != NULL && ctx.session != NULL && ctx.enumeration != NULL);
+    /* every allocation of the three constructors may fail (C18): the glue has to cope with a missing automaton */
     /* arbitrary reachable automaton states */
     V_ASSUME(in.s1 <= 2 && in.s2 <= 3 && in.s3 <= 2);
-    ctx.mapping->current_state = in.s1; ctx.session->current_state = in.s2; ctx.enumeration->current_state = in.s3;
+    if (ctx.mapping != NULL) ctx.mapping->current_state = in.s1;
+    if (ctx.session != NULL) ctx.session->current_state = in.s2;
+    if (ctx.enumeration != NULL) ctx.enumeration->current_state = in.s3;
     /* a buffer of exactly the told length */
     uint8_t *buf = (uint8_t *)malloc(in.length ? in.length : 1);
     V_ASSUME(buf != (uint8_t *)0);
     for (size_t i = 0; i < ESP_N; i++) { if (i < in.length) buf[i] = in.bytes[i]; }
     lltd_esp32_handle_frame(in.null_ctx ? (lltd_esp32_ctx_t *)0 : &ctx, in.null_frame ? (const void *)0 : (const void *)buf, in.length);
     V_POST("C01.esp32-states-closed: the automata stay inside their state sets",
-           ctx.mapping->current_state <= 2 && ctx.session->current_state <= 3 && ctx.enumeration->current_state <= 2);
-    if (in.length >= 32) { V_CANARY("handled"); }
+           (ctx.mapping == NULL || ctx.mapping->current_state <= 2) && (ctx.session == NULL || ctx.session->current_state <= 3) &&
+           (ctx.enumeration == NULL || ctx.enumeration->current_state <= 2));
+    if (ctx.mapping == NULL || ctx.session == NULL || ctx.enumeration == NULL) { V_CANARY("degraded"); }
+    if (in.length >= 32 && ctx.mapping != NULL && ctx.session != NULL && ctx.enumeration != NULL) { V_CANARY("handled"); }
     if (in.length < 32) { V_CANARY("short"); }
     V_CANARY("end");
 }
